@@ -13,6 +13,7 @@ class Graph:
         lines printed by the spec's DumpL.  States are kept as opaque strings
         (parsed lazily by state()); only the event records are parsed."""
         self.ids = {}
+        self._cc = {}
         self._raw = []
         self._parsed = {}
         self.edges = []          # (s, evdict, t)
@@ -25,17 +26,32 @@ class Graph:
                 continue
             _, s_raw, e_raw, t_raw = parts
             level = int(line[line.rindex(",") + 1:line.rindex(">>")])
-            s = self._id(s_raw)
-            t = self._id(t_raw)
-            key = (s, e_raw, t)
+            s = self._id(self._canon(s_raw))
+            t = self._id(self._canon(t_raw))
+            ev = json.loads(json.loads('"' + e_raw + '"'))
+            key = (s, json.dumps(ev, sort_keys=True), t)
             if key in seen:
                 continue
             seen.add(key)
             if level == 1 and s not in self.inits:
                 self.inits.append(s)
             self.out[s].append(len(self.edges))
-            self.edges.append((s, json.loads(json.loads('"' + e_raw + '"')), t))
+            self.edges.append((s, ev, t))
         self.states = _LazyStates(self)
+        # every transition must be reachable from an initial state, otherwise
+        # the dump's state rendering is not canonical (machinery failure)
+        par = self.bfs_parents()
+        self.unreachable = sum(1 for (s, _, _) in self.edges if s not in par)
+        self._cc = None
+        self.ids = None
+
+    def _canon(self, raw):
+        """ToJson emits record fields in no fixed order: canonicalise."""
+        c = self._cc.get(raw)
+        if c is None:
+            c = self._cc[raw] = json.dumps(json.loads(json.loads('"' + raw + '"')),
+                                           sort_keys=True, separators=(",", ":"))
+        return c
 
     def _id(self, raw):
         i = self.ids.get(raw)
@@ -47,7 +63,7 @@ class Graph:
     def state(self, i):
         st = self._parsed.get(i)
         if st is None:
-            st = self._parsed[i] = json.loads(json.loads('"' + self._raw[i] + '"'))
+            st = self._parsed[i] = json.loads(self._raw[i])
         return st
 
     def bfs_parents(self):
@@ -142,8 +158,31 @@ class _LazyStates:
     def __init__(self, g):
         self.g = g
 
+    def __getstate__(self):
+        return {"g": self.g}
+
     def __getitem__(self, i):
         return self.g.state(i)
 
     def __len__(self):
         return len(self.g._raw)
+
+
+def from_dump(r):
+    """Graph of a tlc.dump_cached() result; the built graph is itself cached
+    (pickle) next to the dump, keyed by the dump's key."""
+    import os
+    import pickle
+    path = getattr(r, "cache_path", None)
+    if path:
+        gp = path[:-len(".txt.gz")] + ".graph.pkl"
+        if os.path.exists(gp):
+            with open(gp, "rb") as f:
+                return pickle.load(f)
+    g = Graph(r.tr)
+    if path:
+        tmp = gp + ".tmp%d" % os.getpid()
+        with open(tmp, "wb") as f:
+            pickle.dump(g, f, protocol=pickle.HIGHEST_PROTOCOL)
+        os.replace(tmp, gp)
+    return g
